@@ -227,6 +227,42 @@ def bk8(p, res):
     return n
 
 
+def bk10(p, res):
+    """i128 accumulators hold exact values of i64 digits over the whole i64 range: a digit is widened before it is negated / added / subtracted.  Narrow arithmetic first
+    (`ai.wrapping_neg() as i128`, `(a - b) as i128`) wraps at the ends of the i64 range (-i64::MIN) although the accumulator could hold the exact value."""
+    n = 0
+    for f in sorted(p.fns.values(), key=lambda x: x.uid):
+        if not f.blocks or "ntt120" not in f.uid or not f.uid.startswith(("poulpy_cpu_ref", "poulpy_cpu_avx")) or f.is_test():
+            continue
+        flow = None
+        for blk in f.blocks:
+            for st in blk["s"]:
+                if not (st[0] == "A" and st[2]["k"] == "Cast" and st[2].get("ck") == "IntToInt"):
+                    continue
+                if f.ty(st[2]["from"]).get("s") != "i64" or f.ty(st[2]["ty"]).get("s") != "i128":
+                    continue
+                n += 1
+                if flow is None:
+                    flow = Flow(f)
+                why = None
+                for r in flow.op_roots(st[2]["o"][0]):
+                    if r[0] == "call":
+                        nm = (f.callee_def(f.blocks[r[1]]["t"]) or {}).get("n", "")
+                        if nm.startswith("wrapping_") or nm in ("neg", "sub", "add"):
+                            why = nm
+                    elif r[0] == "bin":
+                        s2 = f.blocks[r[1]]["s"][r[2]][2]
+                        if s2.get("op") in ("Neg", "Sub", "SubWithOverflow", "Add", "AddWithOverflow", "Mul", "MulWithOverflow"):
+                            why = s2.get("op")
+                if why:
+                    res.bad("BK-10", f.pretty, "narrow-arithmetic-before-widening:%s" % why,
+                            "%s widens the result of an i64 `%s` into the i128 accumulator: at the ends of the i64 range the narrow operation wraps (e.g. -i64::MIN) although the "
+                            "accumulator holds the exact value when the digit is widened first" % (f.pretty, why), site=f.where(st[3] if len(st) > 3 else None))
+                else:
+                    res.ok("BK-10")
+    return n
+
+
 def bk9(p, res):
     """family twins: a shape function that exists under the same name in reference::fft64 and reference::ntt120 bounds its work by the same quantities. For every comparison of a bare
     parameter with a derived bound (`if limb_offset >= col_max { .. }`), the set of parameters the bound depends on is the same in both families"""
@@ -581,6 +617,7 @@ def run(res, tier):
     res.rule("BK-5", "target_feature kernels with a `len >> k` trip count have a scalar tail, a fallback to a *_ref kernel, or an explicit multiple-of-lanes check")
     res.rule("BK-7", "an AVX kernel's in-place (`*_assign_avx*`) and out-of-place forms use the same set of arithmetic / logic / compare intrinsics (loads, stores, constant set-ups ignored; a const-generic accumulate twin may add)")
     res.rule("BK-8", "where the reference kernel uses i64::wrapping_mul the AVX kernel of the same trait method does not multiply with _mm256_mul_epi32 (low 32 bits only)")
+    res.rule("BK-10", "NTT120 family: an i64 digit is widened to i128 before it is negated / added / subtracted (exact over the whole i64 range)")
     res.rule("BK-9", "same-name shape functions of reference::fft64 and reference::ntt120 compare a parameter against bounds that depend on the same parameters")
     res.rule("BK-6", "AVX normalisation step kernels: (get_digit, get_carry) applications per lsh branch equal those of the *_ref twin")
     res.assumptions = ["kernel arithmetic inside matching twins is not compared", "FFT64 vs NTT120 numerical agreement is not decided"]
@@ -608,6 +645,8 @@ def run(res, tier):
         res.floor("BK-8", "kernel methods whose reference multiplies i64 x i64 wrapping", n8, 2, ref_min=0)
         n9 = bk9(p, res)
         res.floor("BK-9", "same-name shape functions of the two families with parameter bounds", n9, 1)
+        n10 = bk10(p, res)
+        res.floor("BK-10", "i64 -> i128 widenings of the NTT120 family", n10, 30, ref_min=20)
         n7 = bk7(p, res)
         res.floor("BK-7", "in-place / out-of-place AVX kernel pairs", n7, 15, ref_min=0)
         res.fn_count += n1 + n2 + n5 + n6
